@@ -74,6 +74,19 @@ func scenarioCorpus() []scenario {
 			k.W.Write("x.log", []byte("l\n"))
 			k.W.Write("keep", []byte("k\n"))
 		}, fixed("add", ".")},
+		{"add-blob-sharing-object-directory", func(k *Walker) {
+			// a new blob whose id starts with the same two hex digits as a blob HEAD refers to
+			k.Init()
+			commitBase(k)
+			want := gitfmt.BlobID([]byte("a1\n"))[:2]
+			for i := 0; i < 100000; i++ {
+				b := []byte(fmt.Sprintf("collide %d\n", i))
+				if gitfmt.BlobID(b)[:2] == want {
+					k.W.Write("collide.txt", b)
+					break
+				}
+			}
+		}, fixed("add", "collide.txt")},
 		{"rm-file", func(k *Walker) { k.Init(); commitBase(k) }, fixed("rm", "a.txt")},
 		{"rm-dir", func(k *Walker) { k.Init(); commitBase(k) }, fixed("rm", "dir")},
 		{"commit-first", func(k *Walker) {
@@ -237,6 +250,8 @@ func runFaults(c *core.Ctx, w *core.World, name string, argv []string, randomHis
 		// the fault-free command itself fails: not a scenario (other properties judge that)
 		c.Count(prop + ".scenario-refused")
 		if !randomHist {
+			// a hand-picked scenario is valid by construction: if its fault-free run fails, this check cannot judge it
+			c.Broken(fmt.Sprintf("scenario %s: the fault-free run of %v fails (exit %d): the command is broken before any fault is injected", name, argv, ref.Exit))
 			c.Note(fmt.Sprintf("scenario %s: fault-free %v exits %d: %s", name, argv, ref.Exit, clipS(firstLine(string(ref.Stdout)+string(ref.Stderr)), 120)))
 		}
 		return
@@ -328,6 +343,15 @@ func runFaults(c *core.Ctx, w *core.World, name string, argv []string, randomHis
 						continue
 					}
 					fail(fc, oracle, p.Oracle, trig, "%s: %s", where, p.Msg)
+				}
+			}
+			for id, oi := range preR.Objects {
+				if oi.Err != nil {
+					continue
+				}
+				if oj, ok := kr.Objects[id]; !ok || oj.Err != nil || !bytes.Equal(oj.Obj.Body, oi.Obj.Body) {
+					fail(fc, "C15.reachable-intact", "stored-object-lost", trig, "%s: object %s (%s), stored before the command, is gone or damaged", where, id, oi.Obj.Kind)
+					break
 				}
 			}
 			// (2) every branch names its old or its new commit, HEAD its old or new text
@@ -433,6 +457,20 @@ func runFaults(c *core.Ctx, w *core.World, name string, argv []string, randomHis
 		if cmdKind != "init" || kr.HeadPresent {
 			for _, p := range kr.Fsck(false) {
 				fail(fc, "C16.fsck", p.Oracle, trig, "%s (exit %d): %s", where, res.Exit, p.Msg)
+			}
+		}
+		// C03's last clause: no stored object is deleted or altered, whatever the exit status
+		c.Oracle("C16.object-immutable")
+		for id, oi := range preR.Objects {
+			if oi.Err != nil {
+				continue
+			}
+			if oj, ok := kr.Objects[id]; !ok {
+				fail(fc, "C16.object-immutable", "object-deleted", trig, "%s (exit %d): object %s (%s), stored before the command, is gone", where, res.Exit, id, oi.Obj.Kind)
+				break
+			} else if oj.Err != nil || !bytes.Equal(oj.Obj.Body, oi.Obj.Body) {
+				fail(fc, "C16.object-immutable", "object-altered", trig, "%s (exit %d): object %s changed", where, res.Exit, id)
+				break
 			}
 		}
 		c.Oracle("C16.branch-advanced-incomplete")
